@@ -1086,6 +1086,118 @@ pub fn search_relative(out: &mut Vec<Finding>, all: bool) {
     }
 }
 
+
+/// C06: the components RFC 3986 5.2.2 selects (scheme, authority, query, fragment exactly; the path where the table copies
+/// it unchanged) and the agreement of the six entry points (resolved / resolve / into_resolved, both families).
+/// The merged / dot-segment-free path itself is NOT compared here (two recorded deviations live there).
+pub fn search_resolve(out: &mut Vec<Finding>) {
+    let refs: Vec<Vec<u8>> = strings(b"a:/?#.", 4).into_iter().filter(|s| uri::UriRef::new(s).is_ok()).collect();
+    let bases: Vec<&[u8]> = vec![b"s:", b"s:/b/c?q#f", b"s://h", b"s://h/b/c?q", b"s:b?q", b"s://h?q#f", b"t://g/x/y/"];
+    for r in &refs {
+        for b in &bases {
+            let (rs, ra, rp, rq, rf) = parts_owned(r);
+            let (bs, ba, bp, bq, _bf) = parts_owned(b);
+            // RFC 3986 5.2.2
+            let (es, ea, eq_, path_is): (Option<Vec<u8>>, Option<Vec<u8>>, Option<Vec<u8>>, Option<Vec<u8>>);
+            if rs.is_some() {
+                es = rs.clone(); ea = ra.clone(); eq_ = rq.clone(); path_is = None;
+            } else if ra.is_some() {
+                es = bs.clone(); ea = ra.clone(); eq_ = rq.clone(); path_is = None;
+            } else if rp.is_empty() {
+                es = bs.clone(); ea = ba.clone(); eq_ = if rq.is_some() { rq.clone() } else { bq.clone() }; path_is = Some(bp.clone());
+            } else {
+                es = bs.clone(); ea = ba.clone(); eq_ = rq.clone(); path_is = None;
+            }
+            let ef = rf.clone();
+            let (r2, b2) = (r.clone(), b.to_vec());
+            let res = guarded(move || {
+                let base = uri::Uri::new(&b2).unwrap();
+                let x = uri::UriRef::new(&r2).unwrap();
+                let a1 = x.resolved(base).into_bytes();
+                let mut y = x.to_owned();
+                y.resolve(base);
+                let a2 = y.into_bytes();
+                let a3 = x.to_owned().into_resolved(base).into_bytes();
+                let ib = base.as_iri();
+                let xi = x.as_iri_ref();
+                let a4 = xi.resolved(ib).into_bytes();
+                let mut yi = xi.to_owned();
+                yi.resolve(ib);
+                let a5 = yi.into_bytes();
+                let a6 = xi.to_owned().into_resolved(ib).into_bytes();
+                vec![("UriRef::resolved", a1), ("UriRefBuf::resolve", a2), ("UriRefBuf::into_resolved", a3), ("IriRef::resolved", a4), ("IriRefBuf::resolve", a5), ("IriRefBuf::into_resolved", a6)]
+            });
+            let inputs = vec![r.clone(), b.to_vec()];
+            let v = match res {
+                None => {
+                    out.push(Finding { what: "resolution panics".into(), inputs, real: "panic".into(), expected: "no panic".into() });
+                    return;
+                }
+                Some(v) => v,
+            };
+            let first = v[0].1.clone();
+            for (what, t) in &v {
+                if *t != first {
+                    out.push(Finding { what: format!("{} disagrees with UriRef::resolved on the same reference and base", what), inputs, real: lossy(t), expected: lossy(&first) });
+                    return;
+                }
+            }
+            if uri::Uri::new(&first).is_err() {
+                out.push(Finding { what: "the resolved text is not a valid URI".into(), inputs, real: lossy(&first), expected: "a valid URI".into() });
+                return;
+            }
+            let (ts, ta, tp, tq, tf) = parts_owned(&first);
+            let path_ok = match &path_is { Some(p) => tp == *p, None => true };
+            if ts != es || ta != ea || tq != eq_ || tf != ef || !path_ok {
+                out.push(Finding {
+                    what: "resolution does not select the components of RFC 3986 5.2.2".into(),
+                    inputs,
+                    real: format!("{:?}: s={} a={} p={:?} q={} f={}", lossy(&first), showv(&ts), showv(&ta), lossy(&tp), showv(&tq), showv(&tf)),
+                    expected: format!("s={} a={} {} q={} f={}", showv(&es), showv(&ea), match &path_is { Some(p) => format!("p={:?}", lossy(p)), None => "p=(merged / dot-segment-free path, not compared)".to_string() }, showv(&eq_), showv(&ef)),
+                });
+                return;
+            }
+        }
+    }
+}
+
+/// C01 (routes around the validating automaton): owned constructors and from_vec agree with the borrowed `new`,
+/// keep the text, and hand the input back untouched on failure
+pub fn search_routes(out: &mut Vec<Finding>) {
+    let alpha: Vec<u8> = vec![b'a', b':', b'/', b'%', 0xC3, 0xA9, 0xFF];
+    for s in strings(&alpha, 4) {
+        let as_str = std::str::from_utf8(&s).ok().map(|x| x.to_string());
+        let exp_iri = as_str.as_ref().map_or(false, |t| iri::Iri::new(t.as_str()).is_ok());
+        let exp_iriref = as_str.as_ref().map_or(false, |t| iri::IriRef::new(t.as_str()).is_ok());
+        let exp_uri = uri::Uri::new(&s).is_ok();
+        let exp_uriref = uri::UriRef::new(&s).is_ok();
+        let s2 = s.clone();
+        let r = guarded(move || {
+            let f = |r: Result<Vec<u8>, Vec<u8>>| r;
+            vec![
+                ("IriBuf::from_vec", f(iri::IriBuf::from_vec(s2.clone()).map(|x| x.into_bytes()).map_err(|e| e.0))),
+                ("IriRefBuf::from_vec", f(iri::IriRefBuf::from_vec(s2.clone()).map(|x| x.into_bytes()).map_err(|e| e.0))),
+                ("UriBuf::new", f(uri::UriBuf::new(s2.clone()).map(|x| x.into_bytes()).map_err(|e| e.0))),
+                ("UriRefBuf::new", f(uri::UriRefBuf::new(s2.clone()).map(|x| x.into_bytes()).map_err(|e| e.0))),
+            ]
+        });
+        let v = match r {
+            None => {
+                out.push(Finding { what: "an owned constructor panics".into(), inputs: vec![s.clone()], real: "panic".into(), expected: "no panic".into() });
+                return;
+            }
+            Some(v) => v,
+        };
+        for ((what, got), exp) in v.into_iter().zip([exp_iri, exp_iriref, exp_uri, exp_uriref]) {
+            let ok = match &got { Ok(t) => exp && *t == s, Err(t) => !exp && *t == s };
+            if !ok {
+                out.push(Finding { what: format!("{}: wrong outcome, or the text / the returned input is not the input", what), inputs: vec![s.clone()], real: format!("{:?}", got.map(|x| hexs(&x)).map_err(|x| hexs(&x))), expected: format!("{} carrying {}", if exp { "Ok" } else { "Err" }, hexs(&s)) });
+                return;
+            }
+        }
+    }
+}
+
 pub fn search(prop: &str) -> Vec<Finding> {
     let mut out = vec![];
     match prop {
@@ -1110,6 +1222,8 @@ pub fn search(prop: &str) -> Vec<Finding> {
         "C05" => search_setters(&mut out),
         "C10" => search_pathops(&mut out, false),
         "C11" => search_authmut(&mut out),
+        "C06" => search_resolve(&mut out),
+        "C01" => search_routes(&mut out),
         "C15" => search_relative(&mut out, false),
         "C15all" => search_relative(&mut out, true),
         "C04" => {
